@@ -82,7 +82,7 @@ META["C06"] = {
     "note": "Value equality is Go's == on the public types, which is what the bundle builder relies on for map keys.",
 }
 META["C07"] = {
-    "technique": "rapid PBT with must-accept / must-reject / if-accepted classes over all parsing routes and the constructor; independent policy predicate",
+    "technique": "rapid PBT with must-accept / must-reject / if-accepted classes over all parsing routes and the constructor; independent policy predicate; native coverage-guided fuzzing of address strings (thorough)",
     "text": ("Every route to a remote address (four parsers, the constructor, relative resolution) is fed grammar-valid, single-rule-violating and "
              "mutated inputs; accepted values are judged by an independent transport-policy predicate over the public accessors."),
     "note": "The predicate is harness code written from the property text.",
